@@ -1412,12 +1412,18 @@ def case_c19_readonly(rng, idx, params):
 ENCODINGS = ["candle", "dict", "dict_caps", "dict_iso", "list_ts_last", "list_ts_first", "list_no_ts"]
 
 
-def encode_chunk(rows, enc, single):
-    """rows: stream tuples; single: hand over one bare item instead of a list of items (only for one row)"""
+def encode_chunk(rows, enc, single, stamps=None):
+    """rows: stream tuples; single: hand over one bare item instead of a list of items (only for one row); stamps: the datetimes to
+    use instead of the whole-second ones of the rows (sub-second scenarios)"""
+    stamp_of = {id(t): st for t, st in zip(rows, stamps)} if stamps is not None else None
 
     def one(t):
         ts, o, h, l, c, v = t
-        stamp = wire.secs_to_ts(ts)
+        stamp = wire.secs_to_ts(ts) if stamp_of is None else stamp_of[id(t)]
+        if enc == "candle" and stamp_of is not None:
+            cndl = cm.mk_candle(t)
+            cndl.timestamp = stamp
+            return cndl
         if enc == "candle":
             return cm.mk_candle(t)
         if enc == "dict":
@@ -1469,14 +1475,19 @@ def _managers(obj, target):
     return {"own": obj.candle_manager}
 
 
-def _state(obj, target):
-    """(per-manager candle tuples, per-member columns)"""
+def _raw_tuples(candles):
+    return [(c.timestamp, c.open, c.high, c.low, c.close, c.volume) for c in candles]
+
+
+def _state(obj, target, raw_ts=False):
+    """(per-manager candle tuples, per-member columns); raw_ts: keep the datetime objects (sub-second scenarios)"""
+    tuples = _raw_tuples if raw_ts else candle_tuples
     if target == "hexital":
-        cands = {k: candle_tuples(v) for k, v in obj.get_candles().items()}
+        cands = {k: tuples(v) for k, v in obj.get_candles().items()}
         cols = {n: deepcopy(i.as_list()) for n, i in obj.indicators.items()}
         lists = obj.get_candles()
     else:
-        cands = {"own": candle_tuples(obj.candles)}
+        cands = {"own": tuples(obj.candles)}
         cols = {obj.name: deepcopy(obj.as_list())}
         lists = {"own": obj.candles}
     # which readings each candle of each timeframe carries (a reading leaking into another timeframe's candles shows here)
@@ -1494,17 +1505,34 @@ def check_c19_enc(scn):
     cfg = scn["hx"]
     encs = scn["encs"]
     who = "Hexital" if target == "hexital" else "Indicator"
+    sub = scn.get("subsec")   # optional micro-seconds added to every stamp, in EVERY encoding alike (the same candle data)
+
+    def mk_rows(a, b):
+        cs = cm.mk_candles(stream[a:b])
+        if sub:
+            for c, k in zip(cs, range(a, b)):
+                if c.timestamp is not None and sub[k % len(sub)]:
+                    c.timestamp = c.timestamp + timedelta(microseconds=sub[k % len(sub)])
+        return cs
+
     try:
-        ref = _build_target(scn, cm.mk_candles(stream[:init]))
+        ref = _build_target(scn, mk_rows(0, init))
         ref_states = []
-        _drive(ref, scn, lambda j, consumed: ref_states.append(_state(ref, target)))
+        if sub:
+            ref.calculate()
+            ref_states.append(_state(ref, target, True))
+            for a, b in steps_of(scn)[1:]:
+                ref.append(mk_rows(a, b))
+                ref_states.append(_state(ref, target, True))
+        else:
+            _drive(ref, scn, lambda j, consumed: ref_states.append(_state(ref, target)))
     except Exception as e:
         return {"skip": f"reference raises {type(e).__name__}"}
-    obj = _build_target(scn, cm.mk_candles(stream[:init]))
+    obj = _build_target(scn, mk_rows(0, init))
     obj.calculate()
     for j, (a, b) in enumerate(steps_of(scn)[1:]):
         enc, single = encs[j % len(encs)]
-        payload = encode_chunk(stream[a:b], enc, single)
+        payload = encode_chunk(stream[a:b], enc, single, stamps=[c.timestamp for c in mk_rows(a, b)] if sub else None)
         flat_first = enc == "list_ts_first" and single and (b - a) == 1 and stream[a][0] is not None
         keep = list(payload) if (enc == "candle" and isinstance(payload, list)) else deepcopy(payload)
         try:
@@ -1521,7 +1549,7 @@ def check_c19_enc(scn):
                 "Candle.from_dict:caller-dict-mutated" if enc.startswith("dict") else f"{who}.append:caller-candle-list-mutated")
             return {"clause": "caller-input-unchanged", "step": j + 1, "encoding": enc, "single": single, "observed": _short(payload),
                     "expected": _short(keep), "signature": f"C19:{fam}"}
-        got_c, got_r = _state(obj, target)
+        got_c, got_r = _state(obj, target, bool(sub))
         exp_c, exp_r = ref_states[j + 1]
         fam = enc.split("_")[0]
         for k in exp_c:
@@ -1535,7 +1563,7 @@ def check_c19_enc(scn):
                 return {"clause": "encodings-identical", "what": f"readings[{k}]", "step": j + 1, "encoding": enc, **d,
                         "signature": f"C19:{who}.append:{fam}-encoding-differs"}
         # every timeframe received the same candle: independent resampling of the raw stream
-        if target == "hexital" and not cfg.get("ha") and cfg.get("life") is None and stream and stream[0][0] is not None:
+        if target == "hexital" and not cfg.get("ha") and cfg.get("life") is None and stream and stream[0][0] is not None and not sub:
             for k, mgr in _managers(obj, target).items():
                 want, _ = om.reference(stream[:b], {"tf": mgr.timeframe, "fill": mgr.timeframe_fill})
                 if not cm.tuples_equal(candle_tuples(mgr.candles), want, exact=True):
@@ -1564,6 +1592,9 @@ def gen_c19_enc(rng, size=30):
         encs = [[rng.choice(pool), rng.random() < 0.6] for _ in chunks]
     scn = {"check": "c19.enc", "target": target, "hx": cfg, "members": members, "keep_members": True, "stream": stream,
            "init": init, "chunks": chunks, "encs": encs}
+    if with_ts and rng.random() < 0.25:
+        # stamps with a sub-second part (the same in every encoding): a string and a datetime carrying it are the same candle data
+        scn["subsec"] = [rng.choice([0, 250000, 999999, 1, 500000]) for _ in range(rng.randint(1, 4))]
     meta = {"target": target, "price": smeta["price"], "ts": smeta["ts"], "schedule": shape,
             "timeframes": len({m["tf"] for m in members if m["tf"]}) + 1}
     for (e, single), k in zip(encs, chunks):
@@ -1744,6 +1775,48 @@ def check_c20(scn):
             got = ind.reading_count(q) if key is not None else ind.reading_count()
             if got != _trailing(col):
                 return bad(ind, "Indicator.reading_count", "trailing-run", got, _trailing(col), name=q)
+        # helper series (what the indicator's sub- and managed indicators store under `sub_indicators`): addressed by name through the
+        # owner, and through the helper object itself, they are the stored column as well
+        helper_names = []
+        for c in cands:
+            for h in c.sub_indicators:
+                if h not in helper_names and h not in c.indicators and not hasattr(c, h):
+                    helper_names.append(h)
+        for h in helper_names[:6]:
+            hcol = [c.sub_indicators.get(h) for c in cands]
+            fields = [None]
+            for r in hcol:
+                if isinstance(r, dict):
+                    fields += list(r)[:2]
+                    break
+            for key in fields:
+                q = h if key is None else f"{h}.{key}"
+                col = hcol if key is None else [(r.get(key) if isinstance(r, dict) else None) for r in hcol]
+                stats["evals"] += 1
+                got = ind.as_list(q)
+                if not same(got, col):
+                    return bad(ind, "Indicator.as_list", "helper-agrees-with-candle", first_diff(got, col), "the stored helper readings", name=q)
+                for i in ([-n, -1, 0, n - 1, n // 2] if n else []):
+                    got = ind.reading(q, i)
+                    if not same(got, col[i]):
+                        return bad(ind, "Indicator.reading", "helper-agrees-with-candle", got, col[i], name=q, index=i)
+                    got = ind.read_candle(cands[i], q)
+                    if not same(got, col[i]):
+                        return bad(ind, "Indicator.read_candle", "helper-agrees-with-candle", got, col[i], name=q, index=i)
+                if ind.reading_count(q) != _trailing(col):
+                    return bad(ind, "Indicator.reading_count", "helper-trailing-run", ind.reading_count(q), _trailing(col), name=q)
+        for store in (getattr(ind, "sub_indicators", {}), getattr(ind, "managed_indicators", {})):
+            for hobj in list(store.values())[:6]:
+                hn = getattr(hobj, "name", None)
+                if not hn or not hasattr(hobj, "as_list") or hn not in helper_names or hobj.candles is not cands:
+                    continue
+                hcol = [c.sub_indicators.get(hn) for c in cands]
+                stats["evals"] += 1
+                got = hobj.as_list()
+                if not same(got, hcol):
+                    return bad(ind, "Indicator.as_list", "helper-object-agrees-with-candle", first_diff(got, hcol), "the stored helper readings", name=hn)
+                if n and not same(hobj.reading(), hcol[-1]):
+                    return bad(ind, "Indicator.reading", "helper-object-agrees-with-candle", hobj.reading(), hcol[-1], name=hn)
     scn["_stats"] = stats
     return None
 
